@@ -40,6 +40,14 @@ fn vec_lens(rng: &mut Rng, n: usize, maxlen: usize) -> Vec<usize> {
     for _ in 0..n {
         v.push(rng.random_range(0..=maxlen.min(300)));
     }
+    // powers of two and their neighbours (thresholds of size-dependent code paths)
+    // (natively only: under Miri the two largest lengths below reach every 'large input' path and the cost is per byte)
+    if !cfg!(miri) {
+        for k in 6..=16 {
+            let p = 1usize << k;
+            v.extend_from_slice(&[p - 1, p, p + 1]);
+        }
+    }
     v.push(maxlen);
     v.push(maxlen.saturating_sub(1) | 1);
     v.retain(|l| *l <= maxlen);
